@@ -29,7 +29,7 @@ func (Engine) Name() string { return "vsssim" }
 func (Engine) Runs(prop, tier string) int {
 	if prop == "C04" {
 		if tier == "thorough" {
-			return 60000
+			return 200000
 		}
 		return 5000
 	}
